@@ -101,11 +101,15 @@ class Engine(object):
         self.reset = reset
         self.solver = z3.Solver()
         self.solver.set("timeout", solver_timeout_ms)
+        self.subsolver = z3.Solver()
+        self.summary_cache = {}
         self.stats = Stats()
         self.violations = []
         self.samples = []
         self.mode = None
         # per path
+        self.sub_added = None
+        self.summaries = {}
         self.prefix = []
         self.trace = []
         self.pending = []
@@ -141,7 +145,7 @@ class Engine(object):
         self.vars[name] = ("bool", e)
         return V.SymBool(e)
 
-    def scalar(self, name, tags=(0, 1, 2, 3)):
+    def scalar(self, name, tags=(0, 1, 2, 3), lo=None):
         """A JSON scalar with symbolic type tag (values.NULL/BOOL/INT/FLOAT
         restricted to `tags`) and symbolic integral value."""
         from . import values as V
@@ -156,6 +160,8 @@ class Engine(object):
             self._add(z3.Implies(t == V.NULL, v == 0))
         if V.BOOL in tags:
             self._add(z3.Implies(t == V.BOOL, z3.And(v >= 0, v <= 1)))
+        if lo is not None:
+            self._add(v >= lo)
         return V.SymScalar(t, v)
 
     def token(self, name):
@@ -176,6 +182,8 @@ class Engine(object):
             k = self.conc_choices[self.choice_pos]
             self.choice_pos += 1
             return k
+        if self.sub_added is not None:
+            raise EngineError("E.choice inside a summarised call")
         pos = len(self.trace)
         if pos < len(self.prefix):
             d = self.prefix[pos]
@@ -263,6 +271,80 @@ class Engine(object):
     def stop(self):
         raise PathDone()
 
+    def summarize(self, fn, args, key):
+        """Function summary (state merging) of a pure boolean function of the
+        *real* code: all feasible paths of fn(*args) are explored here, under
+        the current path condition, and the result is one formula
+        OR_i (path-condition_i AND result_i).  The caller then forks once on
+        the summary instead of once per internal branch.  Falls back to a
+        plain call when a sub-path raises or returns a non-boolean."""
+        from . import values as V
+        if self.mode != "sym" or self.sub_added is not None:
+            return fn(*args)
+        hit = self.summary_cache.get(key)
+        if hit is not None:
+            f = hit[1]
+            return V.SymBool(f) if isinstance(f, z3.ExprRef) else f
+        # The sub-exploration runs on a separate solver WITHOUT the path
+        # condition, so the summary is valid under any path condition and can
+        # be cached for the life of the engine.
+        outer = (self.prefix, self.trace, self.pending, self.cache, self.solver,
+                 self.model, self.model_ok, self.solver_model, self.npc)
+        results = []
+        stack = [[]]
+        ok = True
+        try:
+            self.solver = self.subsolver
+            while stack and ok:
+                p = stack.pop()
+                self.prefix, self.trace, self.pending = p, [], []
+                self.cache = {}
+                self.sub_added = []
+                self.solver.reset()
+                self.model_ok = False
+                try:
+                    rv = fn(*args)
+                except (Concretize, EngineError, Inconclusive, PathAbort, PathDone):
+                    raise
+                except Exception:  # noqa
+                    ok = False
+                    rv = None
+                finally:
+                    added = self.sub_added
+                    self.sub_added = None
+                if ok and not isinstance(rv, (bool, V.SymBool)):
+                    ok = False
+                results.append((added, rv))
+                stack.extend(self.pending)
+                if len(results) > 64:
+                    ok = False
+        finally:
+            (self.prefix, self.trace, self.pending, self.cache, self.solver,
+             self.model, self.model_ok, self.solver_model, self.npc) = outer
+            self.sub_added = None
+        if not ok:
+            return fn(*args)
+        disj = []
+        for added, rv in results:
+            if rv is False:
+                continue
+            conj = list(added)
+            if isinstance(rv, V.SymBool):
+                conj.append(rv.e)
+            disj.append(z3.And(conj) if len(conj) != 1 else conj[0] if conj else z3.BoolVal(True))
+        if not disj:
+            f = False
+        elif len(disj) == len(results) and all(rv is True for _, rv in results):
+            f = True
+        else:
+            f = z3.Or(disj) if len(disj) > 1 else disj[0]
+            if z3.is_true(f):
+                f = True
+        if len(self.summary_cache) > 100000:
+            self.summary_cache.clear()
+        self.summary_cache[key] = (args, f)     # args kept alive: ids stay unique
+        return V.SymBool(f) if isinstance(f, z3.ExprRef) else f
+
     def instance(self, obj):
         """The model instance of a (partly symbolic) value: every symbolic leaf
         replaced by its value in a model of the current path condition.  Used
@@ -276,6 +358,8 @@ class Engine(object):
     def _add(self, e, keep_model=False):
         self.solver.add(e)
         self.npc += 1
+        if self.sub_added is not None:
+            self.sub_added.append(e)
         if not keep_model:
             self.model_ok = False
 
@@ -413,6 +497,8 @@ class Engine(object):
         self.path_known = set()
         self.path_nontrivial = False
         self.path_violation = None
+        self.sub_added = None
+        self.summaries = {}
         self.solver.reset()
         self.solver.set("timeout", 20000)
         aborted = False
